@@ -13,9 +13,12 @@ open Proto C20
 inductive COp where
   | put (k v : Nat) | putTtl (k v t : Nat) | update (k v : Nat) | delete (k : Nat) | clear | cleanup
   | checkpoint | crash | restore (i : Nat) | advance (d : Nat)
+  | failCk                 -- `Z`: checkpoint whose `File::create` fails (real I/O error injected by the harness)
+  | event (k v : Nat)      -- `E<k>.<v>`: `StatefulOperator::process` with a process function that puts v under k
 deriving Repr
 
 structure Case where
+  oper : Bool := false     -- `O`: the file backend driven through `StatefulOperator` (a delegating wrapper: same model)
   file : Bool
   maxCk : Nat
   ttl : Option Nat
@@ -34,6 +37,8 @@ def parseOp (s : String) : Option COp :=
   | "G", some [] => some .cleanup
   | "C", some [] => some .checkpoint
   | "K", some [] => some .crash
+  | "Z", some [] => some .failCk
+  | "E", some [k, v] => some (.event k v)
   | "R", some [i] => some (.restore i)
   | "A", some [d] => some (.advance d)
   | _, _ => none
@@ -41,7 +46,7 @@ def parseOp (s : String) : Option COp :=
 def parseCase (line : String) : Option Case :=
   match tokens line with
   | [b, m, t, ops] => do
-    let file ← (if b = "F" then some true else if b = "M" then some false else none)
+    let file ← (if b = "F" || b = "O" then some true else if b = "M" then some false else none)
     let maxCk ← m.toNat?
     let ttl ← (if t = "N" then some none else t.toNat?.map some)
     let ops ← (if ops = "-" then some [] else (ops.splitOn ",").mapM parseOp)
@@ -50,7 +55,8 @@ def parseCase (line : String) : Option Case :=
       | [] => []
       | .crash :: _ => [.crash]
       | o :: r => o :: cut r
-    pure { file := file, maxCk := maxCk, ttl := ttl, ops := cut ops }
+    if !file && ops.any (fun o => match o with | .failCk => true | _ => false) then none else
+    pure { oper := b = "O", file := file, maxCk := maxCk, ttl := ttl, ops := cut ops }
   | _ => none
 
 /-! rendering -/
@@ -166,9 +172,15 @@ def toOp (ids : List Id) : COp → Op
   | .crash => .checkpoint
   | .restore i => .restore ((ids[i]?).getD bogusId)
   | .advance d => .advance d
+  | .event k v => .put k v
+  | .failCk => .advance 0      -- not used: `modelSteps` handles `failCk` itself
 
 def modelSteps (cfg : Cfg) : World → List Id → List COp → List String
   | _, _, [] => []
+  | W, ids, .failCk :: ops =>
+    -- `checkpoint` returns Err("Failed to create checkpoint file …") after consuming the id and creating its directory
+    let W' := checkpointFailsAtCreate cfg W
+    showObs { worldObs cfg W' .ok with res := .err "ckfile" } none :: modelSteps cfg W' ids ops
   | W, ids, op :: ops =>
     let r := step natCodec cfg W (toOp ids op)
     let ids' := match r.2 with | .ckpt i => ids ++ [i] | _ => ids
@@ -282,6 +294,17 @@ def oracleLine (line : String) : String :=
           let retired := r.taken.any fun t => !(r.prev.metas.any (·.1 == t.1))
           let crash := os.any fun o => !o.crash.isEmpty
           let expired := cs.ops.any (fun op => match op with | .putTtl .. => true | _ => false) || cs.ttl.isSome
+          let isFail := fun (op : COp) => match op with | .failCk => true | _ => false
+          let failed := cs.ops.any isFail
+          -- a failed checkpoint while the history already held max_checkpoints entries
+          let failedFull := (cs.ops.zip (emptyObs :: os)).any fun (p : COp × Obs) =>
+            isFail p.1 && cs.maxCk ≥ 1 && p.2.metas.length ≥ cs.maxCk
+          -- through the operator: a successful restore of the LATEST listed checkpoint that changed the view, with no
+          -- `process` call since that checkpoint (edits went through state_mut / the clock)
+          let operStale := cs.oper && (oops.zip (os.zip (emptyObs :: os))).any fun (p : OOp × Obs × Obs) =>
+            match p.1, p.2.1.res with
+            | .restore i, .ok => p.2.1.view != p.2.2.view && (p.2.2.metas.getLast?.map (·.1)) == some i
+            | _, _ => false
           let tags := (if cs.file then ["file"] else ["memory"])
             ++ (if nCk ≥ 2 then ["ckpts_ge2"] else if nCk = 1 then ["ckpts_1"] else ["ckpts_0"])
             ++ (if restoresOk > 0 then ["restore_ok"] else [])
@@ -291,6 +314,10 @@ def oracleLine (line : String) : String :=
             ++ (if retired then ["retention_retired"] else [])
             ++ (if crash then ["crash_probe"] else [])
             ++ (if expired then ["ttl"] else [])
+            ++ (if cs.oper then ["stateful_operator"] else [])
+            ++ (if operStale then ["operator_restore_latest_after_unseen_edit"] else [])
+            ++ (if failed then ["checkpoint_io_error"] else [])
+            ++ (if failedFull then ["checkpoint_io_error_with_full_history"] else [])
             ++ (if changed || crash || sameMs then ["nontrivial"] else [])
           joinSp ("ok" :: tags)
   | _ => "bad-input"
